@@ -42,7 +42,10 @@ def run(tier, seed):
             "code does; the configuration check itself refuses such values",
             "the trust anchor's own manifest/CRL re-issuance (offline signer "
             "cycle) is not exercised here",
-        ], rule=RULE, needed_events=NEEDED)
+        ], rule=RULE, needed_events=NEEDED,
+        mc_cfgs=(["MC_Krill_q_maint.cfg", "MC_Krill_q_roll.cfg"] if tier == "quick"
+                 else ["MC_Krill_q_maint.cfg", "MC_Krill_q_roll.cfg", "MC_Krill_roll.cfg",
+                       "MC_Krill_q_aspa.cfg"]))
 
 
 def replay(path, seed):
